@@ -875,8 +875,8 @@ pub fn main() {
     run.assume("first and last given together is not an error of query_with (the Relay spec only discourages it): both must reach the closure unchanged");
     run.assume("the slice resolver and its list model (after/before exclusive, then first, then last) are harness code; only pageInfo/edges consistency and argument handling are the library's");
     run.set_max_samples(30);
-    let scale = run.scale(1, 40);
-    run.set_floors(run.scale(200_000, 5_000_000), run.scale(100_000, 2_000_000));
+    let scale = run.scale(1, 100);
+    run.set_floors(run.scale(200_000, 20_000_000), run.scale(100_000, 5_000_000));
     for c in ["roundtrip_ok", "roundtrip_nan_stays_nan", "hostile_string_rejected", "hostile_string_decoded", "query_with_rejected_before_closure", "query_with_passed_through",
               "query_with_closure_error_passed_through", "executed_rejected_before_closure", "executed_pageinfo_ok", "executed_empty_page_null_cursors", "executed_slice_page_ok"] {
         run.require_counter(c);
